@@ -154,6 +154,20 @@ def state_invariants(sn: Snapshot) -> list[str]:
     return bad
 
 
+def succeeded_outputs(sn: Snapshot) -> list[str]:
+    """I4 in the form `Workflow._check_consistency` tests it at every restart: an attached output of a
+    SUCCEEDED step is BUILT or VOLATILE."""
+    bad = []
+    ok = (FileState.BUILT.value, FileState.VOLATILE.value)
+    for i, s in sn.steps.items():
+        if s["state"] != StepState.SUCCEEDED.value:
+            continue
+        for _, f in sn.sinks(i):
+            if f in sn.files and not sn.nodes[f][3] and sn.files[f][0] not in ok:
+                bad.append(f"I4 {FileState(sn.files[f][0]).name} output of the SUCCEEDED step {sn.key(i)}: {sn.key(f)}")
+    return bad
+
+
 def ownership_invariants(sn: Snapshot) -> list[str]:
     """C08: one owner per path, trees own what is beneath them, globs match no product."""
     bad = []
